@@ -78,7 +78,7 @@ PROPS["C01"] = dict(
     level="proof",
     technique="contract-based: kernel postconditions (reused), halo lemmas over the spec functions, wrapper terms (same kernel and parameters on both backends, halo depth = stencil radius, NaN boundary, global statistics outside the mapped function, result lazy) - relative to the assumed Dask contracts; end-to-end equality bounded",
     not_decided=["Dask's own block / halo / scheduling semantics (assumed contract, exercised by the bounded stand-in)",
-                 "halo lemma for focal apply / focal mean with symbolic kernel sizes (bounded only; for convolution_2d it is lemma C01.halo.convolution, base + step of the inductions over the window)",
+                 "halo lemma for focal mean (fixed 3x3 window, several passes): bounded only; for convolution_2d and focal apply with symbolic kernel shapes it is proved (lemmas C01.halo.convolution - base + step of the inductions over the window - and C01.halo.focal_window)",
                  "float rounding of differently ordered global reductions (hotspots, true_color, perlin, generate_terrain)",
                  ],
     assumptions=["x.map_overlap(f, depth=(dy,dx), boundary=nan) applies f to each block extended by dy/dx cells of neighbouring data (NaN outside) and trims the halo; da.map_blocks applies f to corresponding blocks of identically chunked arrays; task order and worker count do not affect pure tasks"],
